@@ -1,7 +1,23 @@
 """C07: results mirror the return annotation, or soundly cover inferred returns."""
+import corpus
 import oracles
 from props.common import corpus_check
 
 
 def run(ctx):
-    return corpus_check(ctx, "C07", oracles.c07, nontrivial=lambda c: any(f.inferred for m in c.pkg.modules for f in m.funcs))
+    res = corpus_check(ctx, "C07", oracles.c07, nontrivial=lambda c: any(f.inferred for m in c.pkg.modules for f in m.funcs))
+    # docstring-named results: a second stream of packages whose docstrings name (some of) the results
+    tier, seed = ctx["tier"], ctx["seed"]
+    doc_cases = corpus.get("doc", 8 if tier == "quick" else 48, seed, tier)
+    res["disagreements"] += corpus.back_disagreements(doc_cases, "C07") + corpus.front_disagreements(doc_cases, "C07")
+    checked = 0
+    for c in doc_cases:
+        vs, n = oracles.c07_names(c)
+        checked += n
+        for v in vs:
+            res["violations"].append({**v, "package": c.pkg.name, "options": {"docstyle": c.pkg.style}, "files": c.files if len(res["violations"]) < 3 else None})
+    res["evaluations"] += len(doc_cases)
+    res["stats"]["docstring_packages"] = len(doc_cases)
+    res["stats"]["functions_with_as_many_result_entries_as_results"] = checked
+    res["rule"] += "; plus docstring-heavy packages (numpydoc, google, reST) whose Returns sections name some results and leave others unnamed"
+    return res
